@@ -9,6 +9,7 @@ evaluated over all assignments of {NULL,-2,-1,0,1,2,3} to a, b.
 """
 from __future__ import annotations
 
+import decimal
 import json
 
 import itertools
@@ -29,7 +30,8 @@ ARITH = ["+", "-", "*", "/"]
 CMPS = ["=", "<>", "<", "<=", ">", ">="]
 LOGIC = ["AND", "OR", "XOR"]
 
-LEAVES = [["col", "a"], ["col", "b"], ["lit", 1], ["lit", -1], ["lit", 1.5], ["lit", "x"], ["null"], ["agg", "SUM", ["col", "a"]]]
+LEAVES = [["col", "a"], ["col", "b"], ["lit", 1], ["lit", -1], ["lit", 1.5], ["lit", "x"], ["null"], ["agg", "SUM", ["col", "a"]],
+          ["lit", -2.5], ["lit", -0.0], ["declit", "-2.5"], ["lit", 0], ["lit", ""]]
 
 
 _SHARE = {"memo": None}
@@ -52,8 +54,13 @@ def _T_build(e):
         return Field(e[1])
     if k == "lit":
         return ValueWrapper(e[1])
+    if k == "declit":
+        return ValueWrapper(decimal.Decimal(e[1]))
     if k == "null":
         return NullValue()
+    if k == "sub":
+        from pypika_tortoise import Query, Table
+        return Query.from_(Table("cd")).select(Field("c")).where(Field("d") == 1)
     if k == "agg":
         return FN.Sum(T(e[2]))
     if k == "neg":
@@ -110,6 +117,8 @@ def _operand(e):
     """right-hand operands: python constants are passed raw (the library wraps them), terms are built."""
     if e[0] == "lit":
         return e[1]
+    if e[0] == "declit":
+        return decimal.Decimal(e[1])
     if e[0] == "null":
         return None
     return T(e)
@@ -123,8 +132,12 @@ def B(e):
     if k == "lit":
         v = e[1]
         return ("str", v) if isinstance(v, str) else ("num", v)
+    if k == "declit":
+        return ("num", float(e[1]))
     if k == "null":
         return ("null",)
+    if k == "sub":
+        return ("subq",)
     if k == "agg":
         return ("func", e[1], [B(e[2])])
     if k == "neg":
@@ -171,6 +184,8 @@ def R(e):
     if k == "lit":
         v = e[1]
         return "'%s'" % v.replace("'", "''") if isinstance(v, str) else "(%r)" % v
+    if k == "declit":
+        return "(%s)" % e[1]
     if k == "null":
         return "NULL"
     if k == "agg":
@@ -366,7 +381,9 @@ def crit_pairs():
          ["logic", "AND", ["cmp", ">", A_, ONE], ["cmp", "<", B_, ONE]], ["logic", "XOR", ["cmp", ">", A_, ONE], ["cmp", "<", B_, ONE]],
          ["not", ["cmp", "=", A_, B_]], ["not", ["logic", "OR", ["cmp", ">", A_, ONE], ["cmp", "=", A_, B_]]],
          ["in", A_, [ONE, NEG1], False], ["between", B_, NEG1, ONE], ["isnull", A_],
-         ["logic", "OR", ["logic", "AND", ["cmp", ">", A_, ONE], ["cmp", "<", B_, ONE]], ["cmp", "=", A_, B_]]]
+         ["logic", "OR", ["logic", "AND", ["cmp", ">", A_, ONE], ["cmp", "<", B_, ONE]], ["cmp", "=", A_, B_]],
+         # a scalar subquery as an operand: it is one operand, whatever criteria follow
+         ["cmp", "=", A_, ["sub"]], ["cmp", "<", ["sub"], B_], ["cmp", "=", ["arith", "-", A_, ["sub"]], ONE]]
     out = []
     for pos in CRITPOS:
         for x in c:
@@ -494,7 +511,7 @@ def child_sig(e):
 def minimal_failing(e, dialect, fails):
     """smallest failing sub-tree (the enumeration is closed under sub-terms, so this is a descent)."""
     for _, _, _, c in child_sig(e):
-        if c[0] in ("col", "lit", "null"):
+        if c[0] in ("col", "lit", "declit", "null"):
             continue
         if fails(c):
             return minimal_failing(c, dialect, fails)
@@ -523,7 +540,9 @@ def check_tree(e, d):
 def childcat(c):
     k = c[0]
     if k == "lit":
-        return "neglit" if (isinstance(c[1], (int, float)) and c[1] < 0) else "leaf"
+        return "neglit" if (isinstance(c[1], (int, float)) and (c[1] < 0 or str(c[1]).startswith("-"))) else "leaf"
+    if k == "declit":
+        return "neglit" if c[1].startswith("-") else "leaf"
     if k in ("col", "null"):
         return "leaf"
     if k in ("arith", "rarith"):
